@@ -3231,6 +3231,15 @@ func genRegion(p *packages.Package, e entry) (string, error) {
 		return "", fmt.Errorf("function not found")
 	}
 	stmts := fd.Body.List
+	if is, handled, err := extRegionCond(e, fd, rng); handled { // ext_k17k20.go: `F@if:<k>>`
+		if err != nil {
+			return "", err
+		}
+		return extGenCond(p, e, fd, fname, rng, is)
+	}
+	d0, d1 := 0, 0
+	fl[0], d0 = extRegionOffsets(fl[0]) // ext_k17k20.go: `name+k`
+	fl[1], d1 = extRegionOffsets(fl[1])
 	first, last := -1, -1
 	for i, st := range stmts {
 		_, declared := assignedIn([]ast.Stmt{st})
@@ -3262,6 +3271,12 @@ func genRegion(p *packages.Package, e entry) (string, error) {
 		last = len(stmts) - 1
 		if _, ok := stmts[last].(*ast.ReturnStmt); !ok {
 			return "", fmt.Errorf("function does not end in a return")
+		}
+	}
+	if first >= 0 && last >= 0 && !toReturn {
+		first, last = first+d0, last+d1
+		if last >= len(stmts) {
+			return "", fmt.Errorf("region %s not found", rng)
 		}
 	}
 	if first < 0 || last < first {
@@ -3311,7 +3326,11 @@ func genRegion(p *packages.Package, e entry) (string, error) {
 		fc.declare(obj.Name(), lt)
 		fc.paramNames = append(fc.paramNames, obj.Name())
 	}
-	params = append(params, fc.extPrescanRegion(region)...) // ext_k17k20.go
+	params = append(params, fc.extPrescanRegion(region, outs)...) // ext_k17k20.go
+	if regionFields[fc.m] {
+		curFC = fc
+		defer func() { curFC = nil }()
+	}
 	// result: the outs (types discovered after translation) -> translate with a synthetic return
 	ret := &ast.ReturnStmt{}
 	for _, o := range outs {
@@ -3335,6 +3354,9 @@ func genRegion(p *packages.Package, e entry) (string, error) {
 				}
 				return true
 			})
+		}
+		if l2, ok := fc.m.ltype[o]; ok && lt == "" { // ext_k17k20.go: a struct-field local / the `if:` condition
+			lt = l2
 		}
 		if lt == "" {
 			return "", fmt.Errorf("region output %s not found", o)
